@@ -47,6 +47,9 @@ BytesOK(e) ==
   /\ e.avb_out = e.prefix \o VarintBytesEnc(e.s)
   /\ e.avb_back = e.s
   /\ e.avb_n = Len(VarintBytesEnc(e.s))
+  \* a string too long for an 8-bit length prefix is refused (the library panics): it never yields an encoding, which
+  \* could not decode back to the string
+  /\ Len(e.s) > 255 => e.a8_out = <<>>
   /\ Len(e.s) <= 255 =>
        /\ NoPanic(e.a8_panic)
        /\ e.a8_out = e.prefix \o Uint8BytesEnc(e.s)
